@@ -11,7 +11,7 @@ pub fn def() -> PropDef {
         predicate,
         nontrivial,
         functional: true,
-        rule: "well-typed programs from the typed grammar of the core fragment (int, uint, double, bool, string, bytes, null, list, map; arithmetic, comparison, logic, conditional, index, membership, select/has, standard functions, comprehension macros), depth <= 6, leaves from boundary-biased literals and typed context variables; compiled by the real parser and evaluated by both sides; non-trivial = the program contains at least one operator, call or macro; distinct = distinct (context, source text)",
+        rule: "well-typed programs from the typed grammar of the core fragment (int, uint, double, bool, string, bytes, null, list, map; arithmetic, comparison, logic, conditional, index, membership, select/has, standard functions, comprehension macros), depth <= 6, leaves from boundary-biased literals and typed context variables; plus every multi-operand construct (operators, list / map literals, index, calls, conditional, macro bodies) with each operand position filled from 8 failing sub-expressions of distinct error classes and 5 succeeding ones (the first error in source order must be the one reported), and int / uint against fractional doubles of either sign under every relation, max, min and filter; compiled by the real parser and evaluated by both sides; non-trivial = the program contains at least one operator, call or macro; distinct = distinct (context, source text)",
         post: super::no_post,
         exhaustive_note: "random sample of the typed grammar",
     }
@@ -32,13 +32,86 @@ pub fn typed_program(rng: &mut Rng, max_depth: u32, exotic: bool) -> Option<Case
     Some(c)
 }
 
+/// sub-expressions that fail, each with an error class of its own, and some that do not
+const FAILING: [&str; 8] = ["10 / zero", "7 % zero", "big + big", "m.nope", "nope_var", "[1][one].x", "int('x')", "-imin"];
+const FINE: [&str; 5] = ["one", "2", "'k'", "true", "[1]"];
+
+/// "operands are evaluated left to right and the first error aborts": every operand position of
+/// every construct that has several, filled with failing sub-expressions of distinct error classes
+fn first_error_cases(rng: &mut Rng, tier: Tier, out: &mut Vec<Case>) {
+    use cel_interpreter::Value;
+    let mut spec = crate::ctx::CtxSpec::default_ctx();
+    spec.vars.push(("zero".into(), Value::Int(0)));
+    spec.vars.push(("one".into(), Value::Int(1)));
+    spec.vars.push(("big".into(), Value::Int(i64::MAX)));
+    spec.vars.push(("imin".into(), Value::Int(i64::MIN)));
+    spec.vars.push(("m".into(), Value::Map(cel_interpreter::objects::Map { map: std::sync::Arc::new(std::collections::HashMap::new()) })));
+    let pool: Vec<&str> = FAILING.iter().chain(FINE.iter()).copied().collect();
+    let shapes: [&dyn Fn(&str, &str, &str) -> String; 14] = [
+        &|a, b, _| format!("{a} + {b}"),
+        &|a, b, _| format!("{a} == {b}"),
+        &|a, b, _| format!("{a} < {b}"),
+        &|a, b, _| format!("{a} in [{b}]"),
+        &|a, b, c| format!("[{a}, {b}, {c}]"),
+        &|a, b, c| format!("{{{a}: {b}, 'z': {c}}}"),
+        &|a, b, c| format!("{{1: {a}, {b}: {c}}}"),
+        &|a, b, c| format!("{{{a}: 1, {b}: 2, {c}: 3}}"),
+        &|a, b, _| format!("[{a}][{b}]"),
+        &|a, b, c| format!("max({a}, {b}, {c})"),
+        &|a, b, _| format!("string({a}).startsWith(string({b}))"),
+        &|a, b, c| format!("[{a}].map(x, [{b}, {c}])"),
+        &|a, b, c| format!("({a} == 1 ? {b} : {c})"),
+        &|a, b, c| format!("[1, 2].map(x, {{x: {a}, {b}: {c}}})"),
+    ];
+    let reps = if tier == Tier::Quick { 1 } else { 4 };
+    for _ in 0..reps {
+        for shape in shapes.iter() {
+            for a in &pool {
+                for b in &pool {
+                    // the third position: a couple of choices per pair keeps the quick tier small
+                    for _ in 0..2 {
+                        let c = *rng.pick(&pool[..]);
+                        if let Some(mut case) = eval_case_from_src(&spec, &shape(a, b, c)) {
+                            case.tags = vec!["first-error"];
+                            out.push(case);
+                        }
+                    }
+                }
+            }
+        }
+    }
+    // int / uint against doubles with a fraction, of either sign, next to the integer
+    let ints = ["-2", "-1", "0", "1", "2", "0u", "1u", "2u", "imin", "big"];
+    let dbls = ["-2.5", "-1.5", "-1.0", "-0.5", "-0.0", "0.0", "0.5", "1.0", "1.5", "2.5", "-9223372036854775808.5", "9223372036854775807.5"];
+    for i in ints {
+        for d in dbls {
+            for op in ["<", "<=", ">", ">=", "==", "!="] {
+                for src in [format!("{i} {op} {d}"), format!("{d} {op} {i}")] {
+                    if let Some(mut case) = eval_case_from_src(&spec, &src) {
+                        case.tags = vec!["cross-numeric"];
+                        out.push(case);
+                    }
+                }
+            }
+            for src in [format!("max({i}, {d})"), format!("min({d}, {i})"), format!("[{i}].filter(x, x > {d})")] {
+                if let Some(mut case) = eval_case_from_src(&spec, &src) {
+                    case.tags = vec!["cross-numeric"];
+                    out.push(case);
+                }
+            }
+        }
+    }
+}
+
 pub fn generate(tier: Tier, rng: &mut Rng) -> Vec<Case> {
     let n = match tier {
         Tier::Quick => 12_000,
         Tier::Thorough => 600_000,
     };
     let mut out = Vec::with_capacity(n);
-    while out.len() < n {
+    first_error_cases(rng, tier, &mut out);
+    let base = out.len();
+    while out.len() < base + n {
         if let Some(c) = typed_program(rng, 6, false) {
             out.push(c);
         }
